@@ -351,6 +351,8 @@ coap_uri_into_optlist(const coap_uri_t *uri, const coap_address_t *dst,
         /* add Uri-Host */
         optlist = coap_new_optlist(COAP_OPTION_URI_HOST, uri->host.length,
                                    uri->host.s);
+        if (!optlist)
+          return 0;
         if (!coap_host_is_unix_domain(&uri->host)) {
           coap_replace_percents(optlist);
           coap_replace_upper_lower(optlist);
@@ -381,11 +383,12 @@ coap_uri_into_optlist(const coap_uri_t *uri, const coap_address_t *dst,
     if (add_option) {
       uint8_t tbuf[4];
 
-      coap_insert_optlist(optlist_chain,
-                          coap_new_optlist(COAP_OPTION_URI_PORT,
-                                           coap_encode_var_safe(tbuf, 4,
-                                                                (uri->port & 0xffff)),
-                                           tbuf));
+      if (!coap_insert_optlist(optlist_chain,
+                               coap_new_optlist(COAP_OPTION_URI_PORT,
+                                                coap_encode_var_safe(tbuf, 4,
+                                                                     (uri->port & 0xffff)),
+                                                tbuf)))
+        return 0;
     }
   }
 
@@ -780,6 +783,8 @@ coap_path_into_optlist(const uint8_t *s, size_t length, coap_option_num_t optnum
       default:
         /* add segment */
         optlist = coap_new_optlist(optnum, s - p, p);
+        if (!optlist)
+          return 0;
         coap_replace_percents(optlist);
         if (!coap_insert_optlist(optlist_chain, optlist)) {
           return 0;
@@ -806,6 +811,8 @@ coap_path_into_optlist(const uint8_t *s, size_t length, coap_option_num_t optnum
   default:
     /* add segment */
     optlist = coap_new_optlist(optnum, s - p, p);
+    if (!optlist)
+      return 0;
     coap_replace_percents(optlist);
     if (!coap_insert_optlist(optlist_chain, optlist)) {
       return 0;
@@ -849,6 +856,8 @@ coap_query_into_optlist(const uint8_t *s, size_t length, coap_option_num_t optnu
     if (*s == '&') {                /* start of new query element */
       /* add previous query element */
       optlist = coap_new_optlist(optnum, s - p, p);
+      if (!optlist)
+        return 0;
       coap_replace_percents(optlist);
       if (!coap_insert_optlist(optlist_chain, optlist)) {
         return 0;
@@ -860,6 +869,8 @@ coap_query_into_optlist(const uint8_t *s, size_t length, coap_option_num_t optnu
   }
   /* add last query element */
   optlist = coap_new_optlist(optnum, s - p, p);
+  if (!optlist)
+    return 0;
   coap_replace_percents(optlist);
   if (!coap_insert_optlist(optlist_chain, optlist)) {
     return 0;
